@@ -78,3 +78,46 @@ func runPin(c *run.Ctx, cs *Case) bool {
 	}
 	return true
 }
+
+// ---------------------------------------------------------------- probe state
+
+// The optimiser evaluates every stage once against an all-empty probe context. A stage with memory
+// (the time helpers' "cache" format: "the first seen date determines the format") must not take that
+// dry run for a seen date: with a partly constant argument — "2021{0}" — the probe sees "2021", which
+// dateparse accepts as a date of its own, and every real date then fails to parse, while the same
+// template without optimisation works. Differential: optimised vs unoptimised, both freshly compiled,
+// same contexts in the same order (kind "diff", Stateful: history checks are skipped, the cache is
+// documented).
+const fpProbeCache = "time-cache:format-detected-from-optimiser-probe"
+
+func probeStateCases(c *run.Ctx) {
+	samples := []string{"2023-04-01 12:30:00", "2021-12-31 23:59:59", "2000-01-01T00:00:00Z", "2021-03-04", "04/Mar/2021:10:11:12 +0000", "Mar 4 2021 10:11:12"}
+	shapes := []string{`{time "%s"}`, `{time "%s" cache}`, `{buckettime "%s" days}`, `{timeformat {time "%s"} RFC3339}`, `{timeattr {time "%s"} weekday}`, `{time "%s" auto}`}
+	idx := 0
+	for _, s := range samples {
+		for cut := 1; cut < len(s); cut++ {
+			for _, front := range []bool{true, false} {
+				for si, shape := range shapes {
+					idx++
+					if !c.Mine(idx) || (si > 1 && (cut+si)%3 != 0) {
+						continue
+					}
+					arg, val := s[:cut]+"{0}", s[cut:]
+					if !front {
+						arg, val = "{0}"+s[cut:], s[:cut]
+					}
+					if !validConst(s) {
+						continue
+					}
+					cs := &Case{Kind: "diff", Tpl: fmt.Sprintf(shape, arg), Stateful: true,
+						Ctxs: []Ctx{{E: []string{val}, K: map[string]string{}}, {E: []string{val}, K: map[string]string{}}}}
+					c.Begin(cs, 60*time.Second)
+					c.Nontrivial("probe-state", cs.Tpl)
+					c.Count("probe_state_cases", 1)
+					runCase(c, cs)
+					c.End()
+				}
+			}
+		}
+	}
+}
